@@ -55,6 +55,7 @@ from pathlib import Path
 from typing import Any, Dict, List, Optional, Sequence, Tuple
 
 from . import common as C
+from . import priv as _PV
 
 TYPE_IDS = [4001, 4002, 4003]          # 8-byte, 16-byte and 0-byte (signal) payloads
 TYPE_SIZES = [8, 16, 0]
@@ -537,7 +538,7 @@ def run_sched_case(case: Dict[str, Any]) -> Dict[str, Any]:
             ctl.abort = False
         ctl.free = True
         if dc is not None:
-            dc._close = True
+            _PV.set_flag_read_by(dc, "write", True, "_close")      # the writer loop's stop flag, whatever it is called
             if ctl.at.get("W") != "finished":
                 ctl.go["W"].release()
             try:
@@ -552,7 +553,7 @@ def run_sched_case(case: Dict[str, Any]) -> Dict[str, Any]:
                     except Exception:  # noqa: BLE001
                         pass
             finally:
-                dc._dead = True
+                _PV.set_flag_read_by(dc, "__del__", True, "_dead")     # keeps __del__ from closing again
         root_logger.removeHandler(wc)
         reinstate(dcm, old)
         shutil.rmtree(base, ignore_errors=True)
